@@ -74,6 +74,8 @@ def main():
       print('demo: patched rc=%d clean rc=%d' % (dm.returncode, dc.returncode))
     for p in args.props:
       env = dict(os.environ, LOGICA_REPO=d,
+                 VERIF_BUILD_DIR=os.path.join(VERIF, 'build', 'alt_' +
+                                              os.path.basename(d)),
                  VERIF_EVIDENCE_DIR=os.path.join(VERIF, 'build',
                                                  'selftest_evidence'))
       if args.n:
@@ -95,6 +97,7 @@ def main():
     if not args.keep:
       Sh('git -C /repo worktree remove --force %s' % d)
       Sh('rm -rf %s' % d)
+      Sh('rm -rf %s' % os.path.join(VERIF, 'build', 'alt_' + os.path.basename(d)))
   return 0
 
 
